@@ -36,30 +36,19 @@ func (g *Generator) FuncToString(f *model.Function) string {
 	sb.WriteString(f.Name)
 	sb.WriteString("(")
 
+	// "dst *DstModel, src *SrcModel, arg0 Type": the destination first in arg
+	// style, then the source unless it is the receiver, then the additional arguments.
+	var params []string
 	if f.DstVarStyle == model.DstVarArg {
-		// "func Name(dst *DstModel"
-		sb.WriteString(f.Dst.Name)
-		sb.WriteString(" *")
-		sb.WriteString(f.Dst.PtrLessFullType())
-		if f.Receiver == "" {
-			// "func Name(dst *DstModel, "
-			sb.WriteString(", ")
-		}
+		params = append(params, f.Dst.Name+" *"+f.Dst.PtrLessFullType())
 	}
-
 	if f.Receiver == "" {
-		// "func Name(dst *DstModel, src *SrcModel"
-		sb.WriteString(f.Src.Name)
-		sb.WriteString(" ")
-		sb.WriteString(f.Src.FullType())
+		params = append(params, f.Src.Name+" "+f.Src.FullType())
 	}
-
 	for _, args := range f.AdditionalArgs {
-		sb.WriteString(", ")
-		sb.WriteString(args.Name)
-		sb.WriteString(" ")
-		sb.WriteString(args.FullType())
+		params = append(params, args.Name+" "+args.FullType())
 	}
+	sb.WriteString(strings.Join(params, ", "))
 
 	// "func Name(dst *DstModel, src *SrcModel)"
 	sb.WriteString(") ")
